@@ -440,8 +440,11 @@ func (x *runner) run(sc scenario) {
 		reset["key"], reset["key2"], reset["prefix"], reset["nonceSize"], reset["pt"] = vt.Hex(tm.key), vt.Hex(tm.key2), vt.Hex(tm.prefix), sc.NonceSize, vt.Hex(pt)
 	case "arith":
 		p, err := newSubtle(sc.Keys[0])
-		if err != nil {
-			vt.Fatal("scenario key refused: %v", err)
+		if err != nil { // a legal configuration refused: recorded as the failure of the encrypting side's constructor
+			x.tw.Emit(reset)
+			x.tw.Emit(vt.Ev{"ev": "NewWriter", "err": true, "panic": false, "sink": []sinkCall{}, "what": "constructor of the primitive: " + err.Error()})
+			x.tw.Emit(vt.Ev{"ev": "end"})
+			return
 		}
 		mk = &primMaker{p: p, aad: vt.Bytes(rng, rng.Intn(20)), aad2: vt.Bytes(rng, 21)}
 	default:
